@@ -107,12 +107,17 @@ func newL1World(r *core.Run, p *l1Profile) *l1World {
 	for i, a := range w.users {
 		var cs sdk.Coins
 		for _, d := range w.denoms {
-			amt := uint64(1_000_000 + r.Intn(9_000_000))
-			if i == 0 && r.Chance(1, 3) {
-				amt = 1 << 62 // a whale, so that amounts around 2^63 are affordable
+			amtB := new(big.Int).SetUint64(uint64(1_000_000 + r.Intn(9_000_000)))
+			if i == 0 {
+				switch r.Intn(4) {
+				case 0:
+					amtB = new(big.Int).Lsh(big.NewInt(1), 62) // a whale, so that amounts around 2^63 are affordable
+				case 1:
+					amtB = new(big.Int).Lsh(big.NewInt(1), 70) // holdings (and so escrows) beyond 64 bits
+				}
 			}
-			cs = cs.Add(sdk.NewCoin(d, math.NewIntFromUint64(amt)))
-			w.m.Bal.add(a, d, new(big.Int).SetUint64(amt))
+			cs = cs.Add(sdk.NewCoin(d, math.NewIntFromBigInt(amtB)))
+			w.m.Bal.add(a, d, amtB)
 		}
 		bal[a.String()] = cs
 	}
@@ -244,7 +249,15 @@ func (w *l1World) genConfig() ophosttypes.BridgeConfig {
 
 // genAmount picks an amount relative to a reference balance.
 func (w *l1World) genAmount(ref *big.Int) math.Int {
-	switch w.r.Weighted([]int{10, 2, 1, 1, 1}) {
+	sel := w.r.Weighted([]int{10, 2, 1, 1, 1, 1})
+	if sel == 5 {
+		// beyond 64 bits when the reference balance allows it
+		if ref.BitLen() > 66 {
+			return math.NewIntFromBigInt(new(big.Int).Add(new(big.Int).Lsh(big.NewInt(1), 65), new(big.Int).SetUint64(w.r.Uint64n(1<<40))))
+		}
+		sel = 0
+	}
+	switch sel {
 	case 0:
 		if ref.Sign() <= 0 {
 			return math.NewInt(int64(1 + w.r.Intn(1000)))
